@@ -1,22 +1,13 @@
-"""Single source for MANIFEST.json: one entry per property (claimed or not).  bin/mkmanifest renders it."""
-
-CLAIMED = {
-    "C17": dict(
-        category="proof",
-        technique="Coq proof (codec round trip + bounds for arbitrary bytes) on a Gallina model of pbofile::open; model tied to the C++ by differential execution of the extracted model",
-        text=("Theorems in coq/Properties_C17.v (kernel-checked, closed under the global context): for every well-formed archive of any size "
-              "the reader model reports exactly the stored properties/entries and returns every entry's bytes unchanged (open_pack, read_pack); "
-              "for ANY byte string every exposed data block lies inside the file and a read returns exactly the advertised number of bytes "
-              "(exposed_inside, read_bounded); the reader's loops terminate within the file length. The model is hand-written and tied to "
-              "src/rvutils/pbofile.hpp on every run by running the extracted model and the real reader on the same archives (independent packer, "
-              "every truncation, byte and length-field corruption, absent path) with crash/hang/OOM/file-creation observed per case."),
-        note=("Trusted: Coq kernel, ExtrOcamlBasic extraction and the OCaml driver, the C++ harness (fork/rlimit), the Python packer. "
-              "Modelled not verified: pbofile.hpp reader (iostream behaviour is abstracted to a byte list). The writer half of pbofile is outside the property."),
-        design="DESIGN.md section 6 C17",
-    ),
-}
-
-NOT_YET = {
-}
-
+"""MANIFEST.json is rendered by bin/mkmanifest from checks/<id>.meta.json fragments
+(keys: category, technique, text, note, design).  A property without a fragment is listed
+under not_applicable with the reason in NOT_YET (or the default)."""
+import glob, json, os
+HERE = os.path.dirname(os.path.dirname(os.path.abspath(__file__)))
+CLAIMED = {}
+for f in sorted(glob.glob(os.path.join(HERE, "checks", "C*.meta.json"))):
+    CLAIMED[os.path.basename(f)[:3]] = json.load(open(f))
+NOT_YET = {}
+p = os.path.join(HERE, "checks", "not_claimed.json")
+if os.path.exists(p):
+    NOT_YET = json.load(open(p))
 ALL = ["C%02d" % i for i in range(1, 21)]
